@@ -618,7 +618,7 @@ def run_verus(text, unit, rlimit=None, keep=None, extra=()):
     try:
         f = os.path.join(tmp, f"{unit}.rs")
         open(f, "w").write(text)
-        cmd = ["verus", f, "--output-json", "--time-expanded", "--multiple-errors", "5"]
+        cmd = ["verus", f, "--output-json", "--time-expanded", "--multiple-errors", "5", "-V", "spinoff-all", "--triggers-mode", "silent"]
         if rlimit:
             cmd += ["--rlimit", str(rlimit)]
         cmd += list(extra)
